@@ -1200,7 +1200,6 @@ func packlogs(seed int64, runs int, res *vh.Result) {
 	for r := 0; r < runs; r++ {
 		id := fmt.Sprintf("packlogs-%d-%d", seed, r)
 		var in []ethtypes.Log
-		type key struct{ b uint64 }
 		want := map[uint64][]uint{}
 		var order []uint64
 		b := uint64(1 + rng.Intn(5))
